@@ -21,11 +21,12 @@ from fractions import Fraction
 
 import z3
 
-Z3_TIMEOUT_MS = int(os.environ.get("VERIF_Z3_TIMEOUT_MS", "20000"))
-CVC5_TIMEOUT_MS = int(os.environ.get("VERIF_CVC5_TIMEOUT_MS", "20000"))
-Z3_FAST_MS = int(os.environ.get("VERIF_Z3_FAST_MS", "1500"))
+Z3_TIMEOUT_MS = int(os.environ.get("VERIF_Z3_TIMEOUT_MS", "60000"))
+CVC5_TIMEOUT_MS = int(os.environ.get("VERIF_CVC5_TIMEOUT_MS", "40000"))
+Z3_FAST_MS = int(os.environ.get("VERIF_Z3_FAST_MS", "3000"))
 ITE_SPLIT_LEAVES = int(os.environ.get("VERIF_ITE_SPLIT_LEAVES", "4000"))
 ITE_SPLIT_DEPTH = int(os.environ.get("VERIF_ITE_SPLIT_DEPTH", "400"))
+ITE_SPLIT_SECONDS = float(os.environ.get("VERIF_ITE_SPLIT_SECONDS", "240"))
 MAX_PATHS = int(os.environ.get("VERIF_MAX_PATHS", "4096"))
 
 
@@ -1051,6 +1052,7 @@ class Ctx:
         # case split on if-then-else conditions (index position classes), ring normal form at the leaves
         if _has_ite(g):
             self._split_budget = ITE_SPLIT_LEAVES
+            self._split_deadline = time.time() + ITE_SPLIT_SECONDS
             st = self._split(g, hyps, 0)
             if st is not None:
                 return st
@@ -1171,6 +1173,8 @@ class Ctx:
 
     def _split(self, g, hyps, depth):
         """-> (status, backend, model, detail) or None (give up: caller falls back to plain z3)"""
+        if time.time() > self._split_deadline:
+            return None
         g = _simp(g)
         if z3.is_true(g):
             return "discharged", "ite-split+simplify", None, ""
@@ -1181,7 +1185,7 @@ class Ctx:
                 return None
             if self._ringnf_leaf(g, hyps):
                 return "discharged", "ite-split+ring-normal-form", None, ""
-            r, model, _ = self._z3_check(hyps, z3.Not(g), Z3_TIMEOUT_MS)
+            r, model, _ = self._z3_check(hyps, z3.Not(g), min(Z3_TIMEOUT_MS, 15000))
             if r == z3.unsat:
                 return "discharged", "ite-split+z3", None, ""
             if r == z3.sat:
